@@ -254,6 +254,10 @@ carquet_status_t carquet_encode_plain_boolean(
         return CARQUET_ERROR_INVALID_ARGUMENT;
     }
 
+    if (count == 0) {
+        return CARQUET_OK;  /* nothing to append (buffer_advance(0) returns NULL) */
+    }
+
     size_t bytes_needed = ((size_t)count + 7) / 8;
     uint8_t* dest = carquet_buffer_advance(output, bytes_needed);
     if (!dest) {
